@@ -12,6 +12,7 @@ from .run import Check, Section
 LABELS = ["YRI", "CEU", "AMR", "ABCDEF", "x"]
 NAMES = ["S1", "HG_2", "a_b_c", "Sample_10"]
 _dir = None
+_cm = {}  # case -> [(bits of the cM value, written token)…] in file order, left behind by the implementation run
 
 
 def setup():
@@ -21,7 +22,14 @@ def setup():
 
 
 def teardown(_):
+    _cm.clear()
     C.rm_tree(_dir)
+
+
+def _bits(x):
+    import struct
+
+    return struct.unpack("<Q", struct.pack("<d", float(x)))[0]
 
 
 def rand_strand(rng, chroms, ends_pool, maxb):
@@ -31,6 +39,10 @@ def rand_strand(rng, chroms, ends_pool, maxb):
         if rng.random() < 0.03:
             k = min(len(ends_pool), rng.randint(5, 8))
         ends = sorted(rng.sample(ends_pool, k))
+        if k >= 2 and rng.random() < 0.15:
+            # tied block ends (a block of length zero: non-decreasing ends are all the format asks for); the earlier block answers
+            i = rng.randrange(k - 1)
+            ends[i + 1] = ends[i]
         for i, e in enumerate(ends):
             r = rng.random()
             if r < 0.5:
@@ -141,6 +153,8 @@ def impl_lookup(case):
     b.recode()
     out["decoded"] = [[[x[0] for x in s["s1"]], [x[0] for x in s["s2"]]] for s in snapshot(b)]
     out["labels_after_recode"] = b.labels
+    # the same object asked once more after decoding: the answer is the one it gave before encoding
+    out["arr_again"] = C.guarded(lambda: b.population_array(variants, samples).tolist())
     return out
 
 
@@ -153,13 +167,14 @@ def model_obs_lookup(case, resp):
     out = {"arr": q["arr"] if "arr" in q else q, "labels": e["labels"], "codes": e["codes"], "decoded": e["decoded"], "labels_after_recode": None}
     code = dict((k, v) for k, v in e["labels"])
     out["enc_arr"] = [[[code[a], code[b]] for a, b in row] for row in q["arr"]] if "arr" in q else q
+    out["arr_again"] = out["arr"]
     return out
 
 
 def eq_lookup(a, b):
     a, b = C.canon(a), C.canon(b)
-    for k in ("arr", "enc_arr"):
-        a[k], b[k] = C.strip_msg(a[k]), C.strip_msg(b[k])
+    for k in ("arr", "enc_arr", "arr_again"):
+        a[k], b[k] = C.strip_msg(a.get(k)), C.strip_msg(b.get(k))
     # the order of the labels dict is not observable behaviour: compare as a mapping
     a["labels"], b["labels"] = sorted(map(tuple, a["labels"])), sorted(map(tuple, b["labels"]))
     return a == b
@@ -205,6 +220,8 @@ def oracle_lookup(case, obs):
         code = {k: v for k, v in obs["labels"]}
         if isinstance(obs["enc_arr"], dict) or obs["enc_arr"] != [[[code.get(a), code.get(b)] for a, b in row] for row in exp]:
             return f"encoded query {obs['enc_arr']} is not the codes of the same labels {exp} under {obs['labels']}"
+    if C.canon(C.strip_msg(obs.get("arr_again"))) != C.canon(C.strip_msg(obs["arr"])) and not (isinstance(obs.get("arr_again"), dict) and isinstance(obs["arr"], dict)):
+        return f"after encode() and recode() the same query on the same object answers {obs.get('arr_again')}, before it answered {obs['arr']}"
     # encode: codes are distinct per label, given labels keep their positions, only labels in the data are listed
     code = {k: v for k, v in obs["labels"]}
     present = {x[0] for s in case["table"] for x in s["s1"] + s["s2"]}
@@ -267,7 +284,12 @@ def impl_file(case):
     r.read(samples=None if case["subset"] is None else set(case["subset"]))
     snap = snapshot(r)
     lines = [l.split("\t") for l in raw.splitlines()]
-    return {"read": snap, "lines": lines}
+    # the cM tokens of the file beside the bits of the values they were written from (block lines have four fields and come in
+    # table order): whether every correctly rounding reader gets the value back is decided in Lean (FloatText.checkTok)
+    cms = [x[3] for smp in case["table"] for st in ("s1", "s2") for x in smp[st]]
+    toks = [l[3] for l in lines if len(l) == 4]
+    _cm[C.jdump(case)] = [[str(_bits(v)), t] for v, t in zip(cms, toks)] + [["0", t] for t in toks[len(cms) :]]
+    return {"read": snap, "lines": lines, "cm_tokens": ["reads"] * len(cms)}
 
 
 def model_req_file(case):
@@ -278,16 +300,16 @@ def model_req_file(case):
 def model_req_file2(case):
     r = model_req_file(case)
     # parse what the model itself renders (round trip inside the model) – and compare both with the real file
-    return {"op": "bpRender", "samples": r["_smp"]}
+    return {"op": "batch", "reqs": [{"op": "bpRender", "samples": r["_smp"]}, {"op": "floatTok", "pairs": _cm.get(C.jdump(case), [])}]}
 
 
 def model_obs_file(case, resp):
-    lines = resp["lines"]
+    lines = resp["resps"][0]["lines"]
     # parse the model-rendered lines with the model parser is theorem parse_render; the observation compared with the
     # implementation is (a) the rendered lines, (b) the table the reader must return
     want = case["subset"]
     read = [{"name": s["name"], "s1": [[x[0], x[1], x[2], float(x[3])] for x in s["s1"]], "s2": [[x[0], x[1], x[2], float(x[3])] for x in s["s2"]]} for s in case["table"] if want is None or s["name"] in want]
-    return {"read": read, "lines": lines}
+    return {"read": read, "lines": lines, "cm_tokens": list(resp["resps"][1]["verdicts"])}
 
 
 def oracle_file(case, obs):
@@ -303,7 +325,7 @@ def oracle_file(case, obs):
 CHECK = Check(
     id="C05",
     title="Ancestry lookup returns the covering block's label; .bp files round-trip",
-    theorems=["C05.find_first_ge", "C05.find_rejects", "C05.absent_chromosome_rejected", "C05.population_array_cells", "C05.population_array_unknown_sample", "C05.recode_encode", "C05.encoded_codes_injective", "C05.encoder_keeps_given_order", "C05.parse_render"],
+    theorems=["C05.find_first_ge", "C05.find_rejects", "C05.absent_chromosome_rejected", "C05.population_array_cells", "C05.population_array_unknown_sample", "C05.recode_encode", "C05.encoded_codes_injective", "C05.encoder_keeps_given_order", "C05.parse_render", "C15.decimal_reads_as_at_most_one_double", "C15.checked_token_reads_back_everywhere"],
     sections=[
         Section(
             name="lookup_encode",
@@ -320,7 +342,7 @@ CHECK = Check(
         ),
         Section(
             name="file_roundtrip",
-            theorems=["C05.parse_render"],
+            theorems=["C05.parse_render", "C15.decimal_reads_as_at_most_one_double", "C15.checked_token_reads_back_everywhere"],
             gen=gen_file,
             impl=impl_file,
             model_req=model_req_file2,
